@@ -751,6 +751,39 @@ pub fn large_count() -> usize {
     LARGE_COUNT.load(std::sync::atomic::Ordering::Relaxed)
 }
 
+/// An arc pinned at its centre and start whose end must sweep an EXACT half turn (`ArcAngle` of 180
+/// degrees or pi radians), started with a sweep of only 10 ... 60 degrees (either way round): the
+/// requested angle sits on the branch cut of `atan2`, and a start that far away tells a residual that
+/// measures the half turn from one that merely measures "the radii are parallel" (which is also zero
+/// for a sweep of 0).
+pub fn gen_half_turn_far_guess(rng: &mut Rng) -> System {
+    let scale = *rng.pick(&[0.1, 1.0, 1.0, 10.0, 100.0]);
+    let (x, y) = (scale * rng.sym(), scale * rng.sym());
+    let r = scale * (0.3 + rng.unit());
+    let a0 = 2.0 * PI * rng.unit();
+    let center = DatumPoint::new_xy(0, 1);
+    let start = DatumPoint::new_xy(2, 3);
+    let end = DatumPoint::new_xy(4, 5);
+    let arc = DatumCircularArc { center, start, end };
+    let (sx, sy) = (x + r * a0.cos(), y + r * a0.sin());
+    let (ex, ey) = (x - r * a0.cos(), y - r * a0.sin());
+    let half = if rng.chance(1, 2) { Angle::from_degrees(180.0) } else { Angle::from_radians(PI) };
+    let cons = vec![
+        Constraint::Fixed(0, x),
+        Constraint::Fixed(1, y),
+        Constraint::Fixed(2, sx),
+        Constraint::Fixed(3, sy),
+        Constraint::Arc(arc),
+        Constraint::ArcAngle(arc, half),
+    ];
+    let th = (10.0 + 50.0 * rng.unit()).to_radians() * if rng.chance(1, 2) { 1.0 } else { -1.0 };
+    let guesses = vec![(0, x), (1, y), (2, sx), (3, sy), (4, x + r * (a0 + th).cos()), (5, y + r * (a0 + th).sin())];
+    let mut sys = System::default_cfg(cons.into_iter().map(ConstraintRequest::highest_priority).collect(), guesses, "half-turn-far");
+    sys.planted = Some(vec![x, y, sx, sy, ex, ey]);
+    sys.scale = scale;
+    sys
+}
+
 pub fn gen_large_one_off(rng: &mut Rng) -> System {
     let max_cons = rng.range(40, 110);
     let mut sys = gen_planted(rng, max_cons, 0.0, &crate::gen_sys::SHAPES);
